@@ -16,12 +16,42 @@ class InjectedObjectiveFault(RuntimeError):
     """The user's objective function failed (injected)."""
 
 
+# user code fails with whatever exception type it likes: the injected failure may be any of these (plain built-in /
+# stdlib types, recognised by their message), so that library code that catches *some* exception types around a pooled
+# or serial evaluation (a "graceful fallback") is exercised with exactly those types
+EXC_TYPES = ["TypeError", "AttributeError", "ValueError", "KeyError", "IndexError", "ZeroDivisionError",
+             "PicklingError", "OSError", "ArithmeticError", "AssertionError"]
+
+
+def make_injected(n, exc=None):
+    msg = f"injected failure of objective evaluation #{n}"
+    if not exc or exc == "RuntimeError":
+        return InjectedObjectiveFault(msg)
+    if exc == "PicklingError":
+        import pickle
+        return pickle.PicklingError(msg)
+    import builtins
+    return getattr(builtins, exc)(msg)
+
+
+def is_injected(e) -> bool:
+    """Is ``e`` (or an exception it was raised from / while handling) the injected objective failure?"""
+    seen = 0
+    while e is not None and seen < 8:
+        if isinstance(e, InjectedObjectiveFault) or "injected failure of objective" in str(e):
+            return True
+        e = e.__cause__ or e.__context__
+        seen += 1
+    return False
+
+
 class FaultPlan:
     def __init__(self, faults):
         self.faults = [dict(f) for f in (faults or [])]
         self.windows = [f for f in self.faults if f["kind"] in ("stream_bias_low", "stream_bias_high",
                                                                  "index_extreme", "index_repeat")]
         self.raise_at = sorted(f["at"] for f in self.faults if f["kind"] == "objective_raise")
+        self.raise_exc = {f["at"]: f.get("exc") for f in self.faults if f["kind"] == "objective_raise"}
         self.slow = [f for f in self.faults if f["kind"] == "objective_slow"]
         self.stalled = {f["widx"]: f for f in self.faults if f["kind"] == "stalled_worker"}
         self.crash_at = [f["at_task"] for f in self.faults if f["kind"] == "worker_crash"]
@@ -119,7 +149,7 @@ class FaultPlan:
         if self.raise_at and n in self.raise_at:
             sim.count("fault_fired:objective_raise")
             sim.event("fault", f"objective_raise@{n}")
-            raise InjectedObjectiveFault(f"injected failure of objective evaluation #{n}")
+            raise make_injected(n, getattr(self, "raise_exc", {}).get(n))
 
     # ---------------------------------------------------------------- pools
     def on_task_start(self, sim, pool, thread, widx) -> bool:
